@@ -10,6 +10,18 @@ class NotPure(Exception):
     pass
 
 
+def key_of(n):
+    """access path of an l-value; constant subscripts are kept (`p->s[1]`), others collapse to `[]`."""
+    n = strip_casts(n)
+    if n is not None and n.k == "ArraySubscriptExpr" and strip_casts(n.c[1]) is not None and strip_casts(n.c[1]).v is not None:
+        b = key_of(n.c[0])
+        return None if b is None else "%s[%d]" % (b, strip_casts(n.c[1]).v)
+    if n is not None and n.k == "MemberExpr":
+        b = key_of(n.c[0])
+        return None if b is None else b + ("->" if n.get("arrow") else ".") + n.name
+    return access_path(n)
+
+
 def variables(n, resolve=None):
     """access paths of the l-values read by expression n (single-definition locals replaced by their definitions)."""
     out = set()
@@ -24,7 +36,7 @@ def variables(n, resolve=None):
                 walk(d, depth + 1)
                 return
         if x.k in ("MemberExpr", "DeclRefExpr", "ArraySubscriptExpr") and x.v is None:
-            p = access_path(x)
+            p = key_of(x)
             if p:
                 out.add(p)
                 return
@@ -58,7 +70,7 @@ def evaluate(n, env, width=32, resolve=None, depth=0):
     if n.v is not None and n.k not in ("MemberExpr", "DeclRefExpr", "ArraySubscriptExpr"):
         return n.v
     if n.k in ("MemberExpr", "DeclRefExpr", "ArraySubscriptExpr"):
-        p = access_path(n)
+        p = key_of(n)
         if p in env:
             return env[p]
         if n.v is not None:
